@@ -16,6 +16,8 @@ RULE = ("conformant exchanges: the 24 forced corners {nonce, server_nonce, new_n
         "both nonces starting with 00; pq = products of two primes just below 2^32 with 2^63 < pq < 2^64 (3037000493 x 3037000507, 4294967279 x 4294967291, "
         "the prime pairs around 2^31.5 on either side, 2 x / 3 x / ~2^31 x the largest prime below 2^32: 8 bytes, high bit set); nonce / new_nonce / "
         "server_nonce = 0 and all-ff, server_nonce = nonce, b = 1 and b = 2^2048-1, g_a = 2 (edge of the range check), fingerprints with the sign bit set; "
+        "pq sent with 1..4 leading zero bytes; dh_prime / g_a sent 256 / 257 / 261 bytes wide so that every aligning padding length 0, 4, 8, 12 occurs; after "
+        "every successful exchange one ordinary request (ping) is made and answered by the server (rpc_result{pong}) so that the state after success is observed; "
         "plus random exchanges: "
         "pq of 5..64 bits (two primes below 2^32), three RSA-2048 keys, g in 2..7, the 2048-bit group, 0..3 foreign fingerprints around the real one, "
         "g_a sent minimal or 256 bytes wide, dh_prime with a leading zero byte, every aligning padding length; thorough: 8 x the corners + 600 random. "
